@@ -63,7 +63,7 @@ PROPS = {
              [], extra_modules=('DocTotal2', 'C10Sourcepos', ('DocTotal', r'invariant_full'), ('BlockTotal', r'parseBlocks_fuel|tokenize_nf|testRules_nf'), 'C10Doc', ('Pipeline', r'doc_line_ending_reduction|render_ranges_irrelevant|erase_joinNode|spliceNode_congr'),)),
     'C11': P('C11', [('codepair', 10000, 80000), ('lines', 600, 4800), ('block', 6000, 48000), ('pipeline', 1500, 12000)], ('C11', 20000, 160000),
              "oracle: payloads (fence look-alikes, entity/escape-like text, tabs, NUL, blank lines) x fenced/indented/span x nesting depth 0-3; node content and rendered <code> compared with the payload",
-             ["span payloads: continuation lines do not start a block construct (block structure wins in CommonMark)"], extra_modules=(('C14Doc', r'doc_fence|doc_indented'), ('Block', r'verbatim'),)),
+             ["span payloads: continuation lines do not start a block construct (block structure wins in CommonMark)"], extra_modules=('C11Nested', ('C14Doc', r'doc_fence|doc_indented'), ('Block', r'verbatim'),)),
     'C12': P('C12', [('entity', 20000, 160000), ('pipeline', 1500, 12000), ('inline', 2500, 20000)], ('C12', 12500, 100000),
              "oracle: named references of the entities table (all in thorough), numeric references over boundary classes + random sample in 3 spellings, 32 escapes x 5 contexts; round trip on random printable strings",
              [], extra_modules=('C12Ctx', 'C12Doc',)),
